@@ -2,7 +2,7 @@ from typing import List, Optional
 
 from hexital.analysis import utils
 from hexital.core.candle import Candle
-from hexital.utils.indexing import validate_index
+from hexital.utils.indexing import absindex, validate_index
 
 
 def doji(
@@ -26,6 +26,7 @@ def doji(
     index = validate_index(index, len(candles), -1)
     if index is None:
         return False
+    index = absindex(index, len(candles))
 
     def _doji(indx: int):
         if indx < 10:
@@ -35,7 +36,7 @@ def doji(
     if lookback is None:
         return _doji(index)
 
-    return any(_doji(i) for i in range(len(candles) - lookback, len(candles)))
+    return any(_doji(i) for i in range(max(index + 1 - lookback, 0), index + 1))
 
 
 def dojistar(
@@ -46,6 +47,7 @@ def dojistar(
     index = validate_index(index, len(candles), -1)
     if index is None:
         return False
+    index = absindex(index, len(candles))
 
     def _dojistar(indx: int):
         if indx < 10:
@@ -67,7 +69,7 @@ def dojistar(
     if lookback is None:
         return _dojistar(index)
 
-    return any(_dojistar(i) for i in range(len(candles) - lookback, len(candles)))
+    return any(_dojistar(i) for i in range(max(index + 1 - lookback, 0), index + 1))
 
 
 def hammer(
@@ -78,6 +80,7 @@ def hammer(
     index = validate_index(index, len(candles), -1)
     if index is None:
         return False
+    index = absindex(index, len(candles))
 
     def _hammer(indx: int):
         if indx < 10:
@@ -98,7 +101,7 @@ def hammer(
     if lookback is None:
         return _hammer(index)
 
-    return any(_hammer(i) for i in range(len(candles) - lookback, len(candles)))
+    return any(_hammer(i) for i in range(max(index + 1 - lookback, 0), index + 1))
 
 
 def inverted_hammer(
@@ -109,6 +112,7 @@ def inverted_hammer(
     index = validate_index(index, len(candles), -1)
     if index is None:
         return False
+    index = absindex(index, len(candles))
 
     def _invhammer(indx: int):
         if indx < 10:
@@ -129,4 +133,4 @@ def inverted_hammer(
     if lookback is None:
         return _invhammer(index)
 
-    return any(_invhammer(i) for i in range(len(candles) - lookback, len(candles)))
+    return any(_invhammer(i) for i in range(max(index + 1 - lookback, 0), index + 1))
